@@ -54,7 +54,45 @@ type op struct {
 	val     string
 	s, e    uint8 // bound indexes (sel)
 	consume uint8
-	amt     uint8 // xfer
+	from    uint8  // xfer: index into payers
+	amt     uint32 // xfer
+}
+
+// payer is one account a Transfer can name as the sender. The committed state
+// gives it nOut unspent outputs of `size` tokens each (equal sizes: whichever
+// outputs the ledger picks, the number picked and the change are determined).
+type payer struct {
+	name string
+	nOut int
+	size int
+}
+
+// A is rich (10 x 100: every amount of the alphabet but the ones meant to
+// exceed its balance is covered), C holds 2 x 2, D holds nothing.
+var payers = [3]payer{{"A", 10, 100}, {"C", 2, 2}, {"D", 0, 0}}
+
+func (p payer) balance() int { return p.nOut * p.size }
+
+// xferAmounts: per payer the amounts {0, less than the balance (within one
+// output, exactly one output, one more than an output), exactly the balance,
+// one over, far over}.
+func xferAmounts(p payer) []uint32 {
+	if p.nOut == 0 {
+		return []uint32{0, 1, 7}
+	}
+	b := uint32(p.balance())
+	return []uint32{0, 1, uint32(p.size), uint32(p.size) + 1, b, b + 1, 10*b + 7}
+}
+
+func xfer(from uint8, amt uint32) op { return op{kind: opXfer, from: from, amt: amt} }
+
+// need is the number of outputs of the payer a transfer of amt consumes
+// (-1: the payer has no outputs at all).
+func (p payer) need(amt uint32) int {
+	if p.size == 0 {
+		return -1
+	}
+	return (int(amt) + p.size - 1) / p.size
 }
 
 func (o op) String() string {
@@ -68,7 +106,12 @@ func (o op) String() string {
 	case opSel:
 		return fmt.Sprintf("sel %s %s %s %s", bucketNames[o.bkt], boundTok[o.s], boundTok[o.e], consTok[o.consume])
 	case opXfer:
-		return fmt.Sprintf("xfer %d", o.amt)
+		// the sender A is implied (format of the replay files written before
+		// the other payers existed)
+		if o.from == 0 {
+			return fmt.Sprintf("xfer %d", o.amt)
+		}
+		return fmt.Sprintf("xfer %d from %s", o.amt, payers[o.from].name)
 	}
 	return "?"
 }
@@ -91,10 +134,24 @@ func parseOp(s string) (op, error) {
 	var o op
 	if f[0] == "xfer" {
 		var n int
-		if _, err := fmt.Sscan(f[1], &n); err != nil || n < 0 || n > 255 {
+		if _, err := fmt.Sscan(f[1], &n); err != nil || n < 0 || n > 1<<30 {
 			return o, bad
 		}
-		return op{kind: opXfer, amt: uint8(n)}, nil
+		from := 0
+		if len(f) == 4 && f[2] == "from" {
+			from = -1
+			for i, p := range payers {
+				if p.name == f[3] {
+					from = i
+				}
+			}
+		} else if len(f) != 2 {
+			return o, bad
+		}
+		if from < 0 {
+			return o, bad
+		}
+		return xfer(uint8(from), uint32(n)), nil
 	}
 	b := indexOf(bucketNames[:], f[1])
 	if b < 0 {
@@ -216,7 +273,7 @@ func (o op) observation(r opResult) string {
 	return "ok"
 }
 
-func execOp(sb contract.StateSandbox, o op, from, to string) (r opResult) {
+func execOp(sb contract.StateSandbox, o op, to string) (r opResult) {
 	defer func() {
 		if x := recover(); x != nil {
 			r.panicked = true
@@ -260,17 +317,17 @@ func execOp(sb contract.StateSandbox, o op, from, to string) (r opResult) {
 		}
 		it.Close()
 	case opXfer:
-		r.err = sb.Transfer(from, to, big.NewInt(int64(o.amt))) != nil
+		r.err = sb.Transfer(world.Addr(payers[o.from].name), to, big.NewInt(int64(o.amt))) != nil
 	}
 	return r
 }
 
 // execProgram runs prog; it stops after an operation that panicked.
 func execProgram(sb contract.StateSandbox, prog []op) []opResult {
-	from, to := world.Addr("A"), world.Addr("B")
+	to := world.Addr("B")
 	out := make([]opResult, 0, len(prog))
 	for _, o := range prog {
-		r := execOp(sb, o, from, to)
+		r := execOp(sb, o, to)
 		out = append(out, r)
 		if r.panicked {
 			break
@@ -296,8 +353,57 @@ type ref struct {
 	need [3][3]string
 	// touched: read by Get earlier in this execution
 	touched [3][3]bool
-	// successful transfers
-	xfers []int
+	// successful transfers, in order
+	xfers []xferRec
+	// avail: outputs of each payer not yet selected (locked) by a transfer of
+	// this execution; a refused transfer leaves it unchanged
+	avail [3]int
+	// refused: transfers with a positive amount that the utxo reader refused
+	refused []uint8 // payer of each
+}
+
+type xferRec struct {
+	from uint8
+	amt  uint32
+	k    int // outputs consumed
+}
+
+func newRef(b backing) *ref {
+	rf := &ref{b: b}
+	for i, p := range payers {
+		rf.avail[i] = p.nOut
+	}
+	return rf
+}
+
+// xferWant: must the transfer be accepted, and how many outputs does it consume.
+func (rf *ref) xferWant(o op) (ok bool, k int) {
+	if o.amt == 0 {
+		return false, 0
+	}
+	k = payers[o.from].need(o.amt)
+	if k < 0 || k > rf.avail[o.from] {
+		return false, 0
+	}
+	return true, k
+}
+
+// wantUtxo is the token read / write set the successful transfers imply:
+// k inputs of the payer per transfer; the amount to B then the change to the payer.
+func (rf *ref) wantUtxo() (ins, outs []tok) {
+	to := world.Addr("B")
+	for _, x := range rf.xfers {
+		p := payers[x.from]
+		addr := world.Addr(p.name)
+		for i := 0; i < x.k; i++ {
+			ins = append(ins, tok{addr, int64(p.size)})
+		}
+		outs = append(outs, tok{to, int64(x.amt)})
+		if c := x.k*p.size - int(x.amt); c > 0 {
+			outs = append(outs, tok{addr, int64(c)})
+		}
+	}
+	return
 }
 
 // lookup returns the value a read must observe and where it comes from.
@@ -378,12 +484,14 @@ func (rf *ref) scanWant(bkt int, s, e uint8) []kv {
 }
 
 // packed abstract state of the reference: per bucket/key 2 bits overlay
-// (none, put, del) + 1 bit "must be in the read set", and the backing index.
-func (rf *ref) packed() uint32 {
-	var x uint32
+// (none, put, del) + 1 bit "must be in the read set", the unselected outputs
+// of A (4 bits) and C (2 bits), "a transfer was refused" (1 bit) and the
+// backing index.
+func (rf *ref) packed() uint64 {
+	var x uint64
 	for b := 0; b < 3; b++ {
 		for k := 0; k < 3; k++ {
-			var c uint32
+			var c uint64
 			if rf.ov[b][k].written {
 				c = 1
 				if rf.ov[b][k].deleted {
@@ -396,5 +504,11 @@ func (rf *ref) packed() uint32 {
 			x = x<<3 | c
 		}
 	}
-	return x<<5 | uint32(rf.b.index())
+	x = x<<4 | uint64(rf.avail[0])
+	x = x<<2 | uint64(rf.avail[1])
+	x <<= 1
+	if len(rf.refused) > 0 {
+		x |= 1
+	}
+	return x<<5 | uint64(rf.b.index())
 }
